@@ -31,7 +31,7 @@ ASSUMPTIONS = ['datasets with >=2 spikes/templates/channels/samples (squeeze deg
 
 @st.composite
 def _case(draw):
-    spec = draw(D.dataset_spec(nan=True))
+    spec = draw(D.dataset_spec(nan=True, probe_labels=True))
     reads = [[draw(st.integers(0, spec['n_raw'] - 1)), draw(st.integers(1, 12))] for _ in range(3)]
     return {'spec': spec, 'nonmono': draw(st.integers(0, 4)) == 0, 'reads': reads}
 
@@ -91,9 +91,11 @@ def check(case):
             same_array('channel_positions', m.channel_positions, T.pos, key='channel_positions')
             exp_sh = T.shanks if T.shanks is not None else np.zeros(nc, dtype=np.int32)
             same_array('channel_shanks', m.channel_shanks, exp_sh, key='channel_shanks', dtype=False)
-            same_array('channel_probes', m.channel_probes, np.zeros(nc), key='channel_probes',
+            exp_pr = T.probes if T.probes is not None else np.zeros(nc)
+            same_array('channel_probes', m.channel_probes, exp_pr, key='channel_probes',
                        dtype=False)
-            same_array('probes', m.probes, [0], key='probes', dtype=False)
+            same_array('probes', m.probes, sorted(set(int(x) for x in exp_pr)), key='probes',
+                       dtype=False)
             # templates
             exp_t = np.array(T.templates, copy=True)
             if T.nan_template is not None:
@@ -158,8 +160,13 @@ def check(case):
                 exp = T.raw[:, T.chmap.astype(np.int64)]
                 out = must_return('traces[:]', lambda: m.traces[:])
                 same_array('traces[:]', out, exp, key='traces')
-                for a, ln in case['reads']:
+                for k, (a, ln) in enumerate(case['reads']):
                     b = min(spec['n_raw'], a + ln)
+                    if k == 1 and nc >= 2:
+                        # a read with a channel selector in between must not change later reads
+                        out = must_return('traces[a:b, cols]', lambda: m.traces[a:b, [nc - 1, 0]])
+                        same_array('traces[%d:%d, [last, first]]' % (a, b), out,
+                                   exp[a:b][:, [nc - 1, 0]], key='traces-cols')
                     out = must_return('traces[a:b]', lambda: m.traces[a:b])
                     same_array('traces[%d:%d]' % (a, b), out, exp[a:b], key='traces')
         finally:
